@@ -336,6 +336,14 @@ class Database:
         if self.h5db is None:
             raise ValueError("There is no open database to split.")
 
+        # refuse before anything is moved: afterwards the file under this name is a new, empty one
+        present = set(self.genTimeSteps())
+        if not set(keepTimeSteps).issubset(present):
+            raise ValueError(
+                "Not all desired time steps ({}) are even present in the "
+                "database".format(keepTimeSteps)
+            )
+
         self.h5db.close()
 
         backupDBPath = os.path.abspath(label.join(os.path.splitext(self._fileName)))
